@@ -16,7 +16,7 @@ import (
 func init() {
 	register(&Spec{ID: "C20", Title: "Isolation level mapping is a deterministic, consistent function", Run: runC20,
 		Meta: core.Meta{
-			Explanation: "R20.8: ASEIsolationLevel.String returns sql.IsolationLevel.String() of the result of ToGo() on its receiver. R20.7: ASEIsolationLevel.ToGo and String reference no package-level variable of their package. R20.6: ASEIsolationLevel.ToGo and String contain no range over a map. R20.5: no String()/Error() method of the module passes its own receiver to fmt.Sprintf/Errorf/Sprint under %v %s %q %x %X (unbounded recursion; the pinned suite runs with -vet=off). Static table and order-independence check of isolationlevels.go. R20.1 reads the sql2ase composite literal through go/types constant values and compares it with the property's table (supported levels map to the four ASE levels, Default to ReadCommitted, every other key to ASELevelInvalid, the five ASE constants pairwise distinct). R20.2 checks on SSA that every nil-error return of ASEIsolationLevelFromGo is dominated by the comma-ok lookup in sql2ase succeeding and by value != ASELevelInvalid and returns the looked-up value. R20.3 enumerates every range over a map in the root package and decides, from the constant table, whether more than one entry can trigger an early exit (which would make the answer depend on Go's randomised map order). R20.4 extracts the reverse table of ToGo (switch on the receiver with constant cases and constant returns, or an injective map range) and checks that every supported non-default level maps back to itself and that String delegates to ToGo.",
+			Explanation: "R20.9: every package-level constant ASELevel* has type ASEIsolationLevel (an untyped constant prints as a number and has no ToGo). R20.8: ASEIsolationLevel.String returns sql.IsolationLevel.String() of the result of ToGo() on its receiver. R20.7: ASEIsolationLevel.ToGo and String reference no package-level variable of their package. R20.6: ASEIsolationLevel.ToGo and String contain no range over a map. R20.5: no String()/Error() method of the module passes its own receiver to fmt.Sprintf/Errorf/Sprint under %v %s %q %x %X (unbounded recursion; the pinned suite runs with -vet=off). Static table and order-independence check of isolationlevels.go. R20.1 reads the sql2ase composite literal through go/types constant values and compares it with the property's table (supported levels map to the four ASE levels, Default to ReadCommitted, every other key to ASELevelInvalid, the five ASE constants pairwise distinct). R20.2 checks on SSA that every nil-error return of ASEIsolationLevelFromGo is dominated by the comma-ok lookup in sql2ase succeeding and by value != ASELevelInvalid and returns the looked-up value. R20.3 enumerates every range over a map in the root package and decides, from the constant table, whether more than one entry can trigger an early exit (which would make the answer depend on Go's randomised map order). R20.4 extracts the reverse table of ToGo (switch on the receiver with constant cases and constant returns, or an injective map range) and checks that every supported non-default level maps back to itself and that String delegates to ToGo.",
 			NotDecided:  "The printed names are delegated to database/sql's IsolationLevel.String and not inspected.",
 			Assumptions: []string{"database/sql level constants have the values the loaded standard library declares", "Go map iteration order is unspecified (language spec)"},
 		}})
@@ -37,6 +37,8 @@ func runC20(r *core.Run) {
 	defer answersUseNoPackageState(r, "R20.7")
 	r.Rule("R20.8", "String is ToGo().String(): printing and translating back agree by construction", 1, false)
 	defer stringIsToGo(r, "R20.8")
+	r.Rule("R20.9", "the level constants are values of the level type", 5, false)
+	defer levelConstsTyped(r, "R20.9")
 
 	aseInvalid := constOf(p, "", "ASELevelInvalid")
 	want := map[string]string{ // sql level -> ASE level (by constant name)
